@@ -124,6 +124,11 @@ class Ctx:
         for root, _, files in os.walk(HARNESS):
             for f in files:
                 if f.endswith(".go") or f.endswith(".json") or f.endswith(".txt"):
+                    # files named zz_verif_cNN_* belong to one property: only that property's check compiles them,
+                    # so a harness file under construction for one property cannot break another property's build.
+                    m = re.match(r"zz_verif_(c\d\d)[_.]", f)
+                    if m and self.prop.lower() not in (m.group(1), "setup") and m.group(1) not in getattr(self, "also", ()):
+                        continue
                     src = os.path.join(root, f)
                     rel = os.path.relpath(src, HARNESS)
                     rep[os.path.join(REPO, rel)] = src
@@ -301,3 +306,32 @@ def run_vector_monitor(ctx, module, vectors_file, cfg=None, timeout=1200, worker
     if n != nvec + 1:
         raise Infra("monitor %s visited %d states for %d vectors" % (module, n, nvec))
     return r, sorted(fails), sorted(divs)
+
+
+# ---------------------------------------------------------------------- TLA+ instance generation
+def write_instance(ctx, name, extends, consts, cfg_lines):
+    """Writes spec/<name>.tla (EXTENDS <extends>, one definition c_<K> per constant) and <name>.cfg
+    (CONSTANT K <- c_K ...) into ctx.specdir. consts: dict K -> TLA+ expression text."""
+    defs = "\n".join("c_%s == %s" % (k, v) for k, v in consts.items())
+    with open(os.path.join(ctx.specdir, name + ".tla"), "w") as fh:
+        fh.write("---- MODULE %s ----\nEXTENDS %s\n%s\n====\n" % (name, extends, defs))
+    with open(os.path.join(ctx.specdir, name + ".cfg"), "w") as fh:
+        fh.write("CONSTANTS\n" + "\n".join("  %s <- c_%s" % (k, k) for k in consts) + "\n" + "\n".join(cfg_lines) + "\n")
+    return name
+
+
+def tla_str(s):
+    return '"%s"' % s
+
+
+def tla_set(xs):
+    return "{" + ", ".join(xs) + "}"
+
+
+def tla_seq(xs):
+    return "<<" + ", ".join(xs) + ">>"
+
+
+def tla_mode(m):
+    """'JRW' -> <<"J","R","W">>, '-' -> <<"-">>"""
+    return tla_seq([tla_str(c) for c in m])
